@@ -97,17 +97,17 @@ class Slice:
 
 
 class RMap:
-    __slots__ = ('entries', 'index')
+    __slots__ = ('entries', 'index', 'ordered')
 
-    def __init__(self): self.entries = []; self.index = {}
+    def __init__(self): self.entries = []; self.index = {}; self.ordered = False
 
     def __repr__(self): return 'map{%s}' % ', '.join('%r: %r' % (e[0], e[1]) for e in self.entries)
 
 
 class RSet:
-    __slots__ = ('entries', 'index')
+    __slots__ = ('entries', 'index', 'ordered')
 
-    def __init__(self): self.entries = []; self.index = {}
+    def __init__(self): self.entries = []; self.index = {}; self.ordered = False
 
     def __repr__(self): return 'set{%s}' % ', '.join('%r' % (e[0],) for e in self.entries)
 
